@@ -105,7 +105,12 @@ func (dist *NegativeBinomialDistribution) LogPdf(r Scalar, x ConstScalar) error 
   t2.Add(x, dist.c1)
   t2.Lgamma(t2)
 
-  r.Mul(x, dist.p)
+  if x.GetFloat64() == 0.0 {
+    // 0 log p = 0, also for p = 0
+    r.Set(ConstFloat64(0.0))
+  } else {
+    r.Mul(x, dist.p)
+  }
   r.Add(r, t1)
   r.Sub(r, t2)
   r.Add(r, dist.z)
